@@ -168,6 +168,14 @@ func (v *PacketDslVisitorImpl) VisitPacketDefinition(ctx *gen.PacketDefinitionCo
 				lengthField = fld
 			}
 
+			if _, exists := fieldMap[fld.Name]; exists {
+				v.BinModel.AddSyntaxError(&model.SyntaxError{
+					Line:            fctx.GetStart().GetLine(),
+					Column:          fctx.GetStart().GetTokenSource().GetCharPositionInLine(),
+					Msg:             "Duplicate field definition for " + fld.Name + " in packet " + name,
+					OffendingSymbol: nil,
+				})
+			}
 			fields = append(fields, fld)
 			fieldMap[fld.Name] = fld
 			declared[fld] = fctx
@@ -425,6 +433,14 @@ func (v *PacketDslVisitorImpl) VisitInerObjectField(ctx *gen.InerObjectFieldCont
 			continue
 		}
 		f := fld.(*model.Field)
+		if names[f.Name] {
+			v.BinModel.AddSyntaxError(&model.SyntaxError{
+				Line:            fctx.GetStart().GetLine(),
+				Column:          fctx.GetStart().GetTokenSource().GetCharPositionInLine(),
+				Msg:             "Duplicate field definition for " + f.Name + " in packet " + name,
+				OffendingSymbol: nil,
+			})
+		}
 		subFields = append(subFields, f)
 		declared[f] = fctx
 		names[f.Name] = true
